@@ -173,7 +173,7 @@ func c02RunPartition(c *fw.Case, mc gen.MinterConfig, times []time.Time, pi int)
 		sum := new(big.Int).Set(st.AmountMinted.BigInt())
 		for _, h := range hist {
 			sum.Add(sum, h.AmountMinted.BigInt())
-			idx := int(h.SequenceId) - 1
+			idx := int(h.SequenceId) - int(mc.FirstID)
 			if idx >= 0 && idx < len(mc.Schedule.Periods) && mc.Schedule.Periods[idx].Kind == model.Linear {
 				if h.AmountMinted.BigInt().Cmp(mc.Schedule.Periods[idx].Amount) != 0 {
 					c.Violate("C02/linear-period-total", "finished linear period %d recorded %s, configured %s", h.SequenceId, h.AmountMinted, mc.Schedule.Periods[idx].Amount)
